@@ -4,7 +4,7 @@ From Coq Require Import List NArith Bool Arith.
 From MV Require Import Base.PyStr Base.Res Html.HtmlTypes Gen.Html Gen.HtmlNodes Html.HtmlModel
   Html.HtmlStore Html.HtmlInv Html.HtmlRound Html.HtmlOps
   Html.HtmlToNodes Html.HtmlToNodesProofs Html.OptRead Html.OptReadProofs Html.HtmlIso Html.HtmlToNodesTotal
-  Html.HtmlAdmonition Html.OptExtract.
+  Html.HtmlAdmonition Html.OptExtract Html.SrcPrims Gen.HtmlSrc Html.NodesPrims Gen.HtmlNodesSrc Html.HtmlNodesSrcProofs.
 Import ListNotations.
 
 (* Pass-through.  For every html.parser behaviour [parse], every text and every combination of
@@ -107,6 +107,19 @@ Theorem C17_option_block_extracted : forall (kvs : attrs),
 Proof. exact option_block_extracted. Qed.
 Print Assumptions C17_option_block_extracted.
 
+(* The option part of an admonition: content = rstrip(option lines) + blank line + body.  The
+   rstrip() removes the space after the colon when the last recognised attribute has an empty
+   value (":name: " -> ":name:"); the strip-':' step then yields yaml_block_r (last line "name:"),
+   and the option reader still returns every attribute value (round 2 left this to correspondence). *)
+Theorem C17_admonition_options_carried : forall (a : attrs) (body : str),
+  let opts := filter (fun kv => mem_str (fst kv) option_keys_admonition) (sorted_items a) in
+  opts <> [] ->
+  exists rest,
+    extract_options (rstrip (option_block option_keys_admonition a) ++ 10%N :: 10%N :: body) = Some (yaml_block_r opts, rest)
+    /\ options_to_items (yaml_block_r opts) = RdOk (map (fun kv => (fst kv, value_or_empty (snd kv))) opts).
+Proof. exact admonition_options_carried. Qed.
+Print Assumptions C17_admonition_options_carried.
+
 (* <img> = {image} directive, for every attribute dictionary with a src value, without any
    restriction on the attribute values (after the repair: values that are not plain-safe are
    written as double-quoted scalars): run_directive receives ("image", src, content) where
@@ -143,6 +156,53 @@ Theorem C17_unquoted_value_refuted :
   exists v, options_to_items ([97; 108; 116; 58; 32]%N ++ v) <> RdOk [([97; 108; 116]%N, v)].
 Proof. exact unquoted_value_refuted. Qed.
 Print Assumptions C17_unquoted_value_refuted.
+
+(* ---- round 3: the same statements for the code REGENERATED from html_to_nodes.py ----
+   Gen/HtmlNodesSrc.v is written on every run by gen/c17_src.py: option_line, default_html and
+   html_to_nodes statement by statement (the body of `for child in root:` as child_step_src), using
+   the regenerated Tree / Element code of Gen/HtmlSrc.v (tokenize, strip, deepcopy). *)
+
+Theorem C17_option_line_src : forall (k : str) (v : option str), option_line_src k v = option_line k v.
+Proof. exact option_line_src_eq. Qed.
+Print Assumptions C17_option_line_src.
+
+Theorem C17_passthrough_src : forall (parse : str -> list event) (gfm img adm : bool) (text : str),
+  let t' := filtered gfm text in
+  let o := html_to_nodes_src parse gfm img adm text in
+  (img = false -> adm = false -> o = ORaw t')
+  /\ (forall x, o <> OWarnRaw x)
+  /\ (o = ORaw t'
+      \/ exists t st croot,
+           tokenize parse t' [] = Ok t
+           /\ strip_inplace (S (length (t_cells t))) (t_cells t) (t_outmost t) false = Ok st
+           /\ get st (t_outmost t) = Ok croot
+           /\ c_children croot <> []
+           /\ all_convertible img adm st (c_children croot) = Ok true
+           /\ (img || adm) = true).
+Proof. exact passthrough_src. Qed.
+Print Assumptions C17_passthrough_src.
+
+(* one iteration of `for child in root:` on an <img> with a src value *)
+Theorem C17_img_equiv_src : forall (st : store) (child : nat) (c : cell) (src : str) (nl : list directive),
+  get st child = Ok c -> c_name c = s_img -> dict_get (c_attrs c) s_src = Some (Some src) ->
+  let opts := filter (fun kv => mem_str (fst kv) option_keys_image) (sorted_items (c_attrs c)) in
+  exists d, child_step_src child st nl = Ok (false, (st, nl ++ [d], None))
+            /\ d_name d = s_image /\ d_first d = src
+            /\ d_content d = join [10%N] (map (fun kv => [58%N] ++ yaml_line kv) opts)
+            /\ options_to_items (yaml_block opts)
+               = RdOk (map (fun kv => (fst kv, value_or_empty (snd kv))) opts).
+Proof. exact img_equiv_src. Qed.
+Print Assumptions C17_img_equiv_src.
+
+(* one iteration on an element that is not an <img> (the div.admonition branch): the directive
+   appended is spec_admonition, on the regenerated strip / deepcopy / title / flattening code
+   (including the Data("\n\n") objects it allocates) *)
+Theorem C17_admonition_directive_src :
+  forall (st : store) (child : nat) (nm : str) (a : attrs) (ch : list html) (nl : list directive),
+  good st -> cells_ok st -> Repr st child (HElem nm a ch) -> str_eqb nm s_img = false ->
+  exists st', child_step_src child st nl = Ok (false, (st', nl ++ [spec_admonition a ch], None)).
+Proof. exact admonition_step_src. Qed.
+Print Assumptions C17_admonition_directive_src.
 
 (* ---- non-vacuity ---- *)
 Local Open Scope N_scope.
